@@ -190,15 +190,16 @@ PROPS = {
     'C16': dict(
         level='proof',
         functions=[SEQ + f for f in ('setPhosPhoSites', 'clear_phosphosites', 'get_phosphosites', 'get_phosphosequence', 'kappa_at_maxPhos',
-                                     'calculateNumberDifferentPhosphoStates', 'calculateKappaDistOfPhosphoStates', 'get_STY_residues')] +
+                                     'calculateNumberDifferentPhosphoStates', 'calculateKappaDistOfPhosphoStates', 'calculateKappaDistOfPhosphoStates#four', 'get_STY_residues')] +
                   [SP + f for f in ('set_phosphosites', 'clear_phosphosites', 'get_phosphosites', 'get_phosphosequence', 'get_kappa_after_phosphorylation',
                                     'get_full_phosphostatus_kappa_distribution', 'get_all_phosphorylatable_sites')],
+        thorough_functions=[SEQ + 'calculateKappaDistOfPhosphoStates#five'],
         lemmas=['rmax_lower'],
         native='c16',
         assumptions=['transition contracts: set_phosphosites keeps the old list as a prefix, adds only requested valid (in range, S/T/Y) positions, adds every valid requested position, never repeats, never raises, '
                      'changes nothing but the list (frame); clear empties it. "After any series of calls" is the fold of these transitions (induction over the history: standard meta-step, not mechanised; checked natively on random series)',
                      'first-set order is part of the proved transition contract: an entry standing before another one was requested before the other one\'s first request',
-                     'the distribution is proved for 0, 1, 2 and 3 sites (2^k entries in binary counting order, each entry = the six contracts applied to the sequence with E stored at the sites whose bit is 1); more sites: native check',
+                     'the distribution is proved for 0 to 4 sites (5 in the thorough tier): 2^k entries in binary counting order, each entry = the six contracts applied to the sequence with E stored at the sites whose bit is 1; more sites: native check (the number of sites is bounded, sequences are not)',
                      'the SequenceParameters forwarders (incl. get_kappa_after_phosphorylation, get_full_phosphostatus_kappa_distribution, get_all_phosphorylatable_sites) are verified against the backend contracts'],
         design_ref='2 / C16',
     ),
